@@ -12,12 +12,11 @@ Objects.  `PP.Mont` is the executable model of what `#[derive(PrimeField)]` gene
 element is a RAW integer `a < p` standing for `dec P a = a·W⁻¹ mod p` (`W = 2^(64·limbs)`), the
 parameters `fqP`, `frP` carry the EXTRACTED constants `MODULUS`, `R`, `R2`, `INV`.  `toFq`/`toFr`
 send a raw value to the canonical-level model `Fq = Zp q`, `Fr = Zp r` (integers modulo `q`, `r`
-with `+ - *` DEFINED as integer arithmetic followed by `% p`).  Modelling assumption (not proved
-here): the unrolled limb-level `mul_assign`/`square`/`mont_reduce` of the proc-macro are represented
-by the integer-level word-by-word REDC `PP.Mont.redcRounds` with the same quotient digits.
+with `+ - *` DEFINED as integer arithmetic followed by `% p`).  Proved elsewhere (PP/Props/C08Limb.lean, PP/Props/GenDerive.lean): the unrolled limb-level `mul_assign`/`square`/`mont_reduce` of the proc-macro, extracted
+from the macro-expanded crate, equal the integer-level word-by-word REDC `PP.Mont.redcRounds` used here.
 
 Primality of `q`, `r` is only needed for `inverse` and is taken as a hypothesis there
-(it is proved independently in `PP.Proofs.Primes`).
+(it is proved independently in `PP.Proofs.Primes`; hypothesis-free versions: PP/Props/C08Prime.lean).
 -/
 import PP.Proofs.Mont3
 import PP.Proofs.Mont4
